@@ -125,9 +125,111 @@ Definition os_field_holds (stated setting : bytes) : bool :=
   else if negated stated then negb (bytes_eqb (map lower (tl stated)) (map lower setting))
        else bytes_eqb (map lower stated) (map lower setting).
 
+(* ---- R9, the jdk condition, evaluated here and not taken from the code under test.
+   Transcribed from JdkVersionProfileActivator (maven-model-builder 3.8.x): a value starting with
+   an exclamation mark is a negated prefix, a value starting with a bracket a range, anything else
+   a prefix of the JDK version.  A range is two bounds; the JDK version and the bounds are read
+   as up to three numbers (missing ones are 0) and compared as tuples; an empty bound is open.
+   The activator truncates longer versions to three numbers, which contradicts the guide's
+   remark on upper bounds; the evaluation below therefore only speaks where nothing is truncated:
+   JDK versions and bounds of one to three numbers (of at most nine digits), separated by dots
+   (for the JDK version also underscore and hyphen), and ranges of exactly the shape
+   bracket bound comma bound bracket.  Everywhere else it says None: no claim. *)
+Definition digit (c : N) : bool := (48 <=? c) && (c <=? 57).
+
+Fixpoint split_by (sep : N -> bool) (cur : bytes) (s : bytes) : list bytes :=
+  match s with
+  | [] => [rev cur]
+  | c :: s' => if sep c then rev cur :: split_by sep [] s' else split_by sep (c :: cur) s'
+  end.
+
+Fixpoint number (acc : N) (s : bytes) : option N :=
+  match s with
+  | [] => Some acc
+  | c :: s' => if digit c then number (acc * 10 + (c - 48)) s' else None
+  end.
+
+Definition component (s : bytes) : option N :=
+  match s with
+  | [] => None
+  | _ => if (length s <=? 9)%nat then number 0 s else None
+  end.
+
+Definition triple (tokens : list bytes) : option (N * N * N) :=
+  match map component tokens with
+  | [Some a] => Some (a, 0, 0)
+  | [Some a; Some b] => Some (a, b, 0)
+  | [Some a; Some b; Some c] => Some (a, b, c)
+  | _ => None
+  end.
+
+Definition jdk_triple (v : bytes) : option (N * N * N) :=
+  triple (split_by (fun c => (c =? 46) || (c =? 95) || (c =? 45)) [] v).
+Definition bound_triple (v : bytes) : option (N * N * N) := triple (split_by (fun c => c =? 46) [] v).
+
+Definition cmp3 (x y : N * N * N) : comparison :=
+  match x, y with
+  | (a1, b1, c1), (a2, b2, c2) =>
+      match a1 ?= a2 with
+      | Eq => match b1 ?= b2 with Eq => c1 ?= c2 | r => r end
+      | r => r
+      end
+  end.
+
+(* a bound: None = not understood, Some None = open, Some (Some t) *)
+Definition bound (s : bytes) : option (option (N * N * N)) :=
+  match s with
+  | [] => Some None
+  | _ => match bound_triple s with Some t => Some (Some t) | None => None end
+  end.
+
+Definition jdk_range_eval (stated jdk : bytes) : option bool :=
+  match stated with
+  | [] => None
+  | open :: rest =>
+      match split_by (fun c => c =? 44) [] rest with
+      | [lo; hi_close] =>
+          match rev hi_close with
+          | close :: hi_rev =>
+              if negb ((close =? 93) || (close =? 41)) then None
+              else
+                match jdk_triple jdk, bound lo, bound (rev hi_rev) with
+                | Some v, Some l, Some h =>
+                    (* getRelationOrder on the left, then on the right (isInRange) *)
+                    let left : Z := match l with
+                                    | None => 1%Z
+                                    | Some t => match cmp3 v t with
+                                                | Lt => (-1)%Z | Gt => 1%Z
+                                                | Eq => if open =? 91 then 0%Z else (-1)%Z
+                                                end
+                                    end in
+                    if (left =? 0)%Z then Some true
+                    else if (left <? 0)%Z then Some false
+                    else Some match h with
+                              | None => true
+                              | Some t => match cmp3 v t with
+                                          | Lt => true | Gt => false
+                                          | Eq => close =? 93
+                                          end
+                              end
+                | _, _, _ => None
+                end
+          | [] => None
+          end
+      | _ => None
+      end
+  end.
+
+Definition jdk_expect (stated jdk : bytes) : option bool :=
+  if is_range stated then jdk_range_eval stated jdk
+  else if negated stated then Some (negb (is_prefix (tl stated) jdk))
+       else Some (is_prefix stated jdk).
+
 Section Spec.
-  (* Version ranges are the business of the version-constraint properties; the range clause is
-     an oracle here (Ok true / Ok false / Err = not a well-formed range: no claim is made). *)
+  (* Ranges the evaluation above does not speak about (jdk_range_eval = None: JDK versions of more
+     than three numbers such as 1.8.0_292, malformed ranges) fall back on an oracle, the answer
+     of the code under test (Ok true / Ok false / Err = no claim is made): there the jdk clause is
+     judged by nobody, and only the rest of the pipeline is. *)
   Variable range_matches : bytes -> bytes -> res bool.
   Variable jdk : bytes.
   Variable os : os_t.
@@ -135,7 +237,10 @@ Section Spec.
 
   Definition jdk_holds (stated : bytes) : sres bool :=
     if is_range stated then
-      match range_matches stated jdk with Ok b => SOk b | _ => SUnsupported U_bad_range end
+      match jdk_range_eval stated jdk with
+      | Some b => SOk b
+      | None => match range_matches stated jdk with Ok b => SOk b | _ => SUnsupported U_bad_range end
+      end
     else if negated stated then SOk (negb (is_prefix (tl stated) jdk))
          else SOk (is_prefix stated jdk).
 
